@@ -151,7 +151,8 @@ def c_answer_disconnected(inp):
 
 
 @S.item("is_lc_equivalent.answer_sampled", site=f"{_LCE}:is_lc_equivalent",
-        bound="seeded; graph 1 CONNECTED (cannot meet KF-C09-1, which needs a disconnected graph): quick 3000 pairs on 5 vertices (600 also random); "
+        bound="seeded; graph 1 CONNECTED (cannot meet KF-C09-1, which needs a disconnected graph): quick 2000 pairs on 5 vertices (400 also random) "
+              "+ 400 pairs on 6 and 100 on 7 vertices (both modes); "
               "thorough 15000 cross-orbit pairs on 5 vertices (random) + 60000 pairs on 6 vertices (6000 also random); half of the pairs in one orbit",
         clause=CL_ANSWER)
 def c_answer_sampled(inp):
@@ -346,8 +347,8 @@ def c_lc_check(inp):
 
 
 @S.item("lc_check.pairs_sampled", site=f"{_SLC}:lc_check",
-        bound="seeded; graph 1 CONNECTED on 5 vertices (cannot meet KF-C09-1), forms graph / adjacency matrix / stabilizer / Clifford tableau: "
-              "quick 600 pairs (half same-orbit), thorough 12000 arbitrary second graphs", clause=CL_ANSWER + "; " + CL_GATES)
+        bound="seeded; graph 1 CONNECTED on 5 (quick: also 6, 7) vertices (cannot meet KF-C09-1), forms graph / adjacency matrix / stabilizer / Clifford tableau: "
+              "quick 400 pairs (half same-orbit) + 100 pairs on 6 and 30 on 7 vertices, thorough 12000 arbitrary second graphs", clause=CL_ANSWER + "; " + CL_GATES)
 def c_lc_check_sampled(inp):
     return c_lc_check(inp)
 
@@ -452,8 +453,8 @@ def _row_product(a, b, n):
 
 
 def _mixed_rows(A):
-    """another generating set of the stabilizer group of |G_A>: K_0 K_1, K_1 K_2, ..., K_{n-2} K_{n-1}, -(-K_{n-1})  i.e. row i
-    multiplied by row i+1 (signs tracked by matrices)"""
+    """another generating set of the stabilizer group of |G_A>: K_0 K_1, K_1 K_2, ..., K_{n-2} K_{n-1}, K_{n-1}
+    (row i multiplied by row i+1; signs tracked by matrices, Y = iXZ entries appear)"""
     n = len(A)
     _, stab = L.graph_rows(A)
     out = [_row_product(stab[i], stab[i + 1], n) for i in range(n - 1)] + [stab[n - 1]]
@@ -505,14 +506,17 @@ def _seq_ok(x1, n, B, seq, what):
     return None
 
 
-def _entry_call(entry, x1, x2, A, B, truth):
-    """one call of an LC entry point on the argument OBJECTS x1, x2 (denoting the graphs A, B); the result is judged against the oracle"""
+def _entry_call(entry, x1, x2, A, B, truth, rseed=0):
+    """one call of an LC entry point on the argument OBJECTS x1, x2 (denoting the graphs A, B); the result is judged against the oracle.
+    rseed: seed handed to the random mode (graphiq's default is 0)"""
     n = len(A)
     if entry in ("is_lc_equivalent.det", "is_lc_equivalent.rand", "Graph.lc_equivalent", "lc_graph_operations"):
         if entry == "Graph.lc_equivalent":
             out = x1.lc_equivalent(x2)
+        elif entry.endswith("rand"):
+            out = lce.is_lc_equivalent(x1, x2, mode="random", seed=rseed) if rseed else lce.is_lc_equivalent(x1, x2, mode="random")
         else:
-            out = lce.is_lc_equivalent(x1, x2, mode="random" if entry.endswith("rand") else "deterministic")
+            out = lce.is_lc_equivalent(x1, x2, mode="deterministic")
         if not (isinstance(out, tuple) and len(out) == 2):
             return f"return value is not a pair: {out!r}"
         ok, sol = out
@@ -540,7 +544,10 @@ def _entry_call(entry, x1, x2, A, B, truth):
     if entry in ("find_lc_operations.det", "find_lc_operations.rand"):
         try:
             with time_limit(5):
-                seq = lce.find_lc_operations(x1, x2, mode="random" if entry.endswith("rand") else "deterministic")
+                if entry.endswith("rand"):
+                    seq = lce.find_lc_operations(x1, x2, mode="random", seed=rseed) if rseed else lce.find_lc_operations(x1, x2, mode="random")
+                else:
+                    seq = lce.find_lc_operations(x1, x2, mode="deterministic")
         except _Timeout:
             return "find_lc_operations did not terminate within 5 CPU-seconds"
         except ValueError as e:
@@ -591,20 +598,22 @@ ENTRY_FORMS = {
     "lc_check": ("int", "float", "nx_w", "nx_plain", "stabilizer", "clifford", "stabilizer_mixed"),
     "lc_check.novalidate": ("int", "nx_plain", "stabilizer_mixed"),
     "converter_gate_list": ("nx_w", "nx_plain"),
-    "state_converter_circuit": ("int", "nx_plain", "stabilizer", "clifford"),
+    "state_converter_circuit": ("int", "nx_plain", "stabilizer"),
 }
 
 
 @S.item("lc_entry_points.frames_and_reuse",
         site=f"{_LCE}:is_lc_equivalent, lc_graph_operations, local_clifford_ops, find_lc_operations ; {_GST}:Graph.lc_equivalent ; "
              f"{_SLC}:lc_check, converter_gate_list, state_converter_circuit",
-        bound="graph 1 CONNECTED (cannot meet KF-C09-1). Fixed list: every same-orbit ordered pair with graph 1 connected on 2..4 vertices (387) + "
-              "for every connected graph on 2..4 vertices 2 graphs outside its orbit; seeded: 40 (thorough 400) pairs on 5 and 20 (200) on 6 vertices. "
+        bound="graph 1 CONNECTED (cannot meet KF-C09-1). Same-orbit ordered pairs with graph 1 connected on 2..4 vertices (thorough: all; quick: all on <=3 "
+              "vertices, every fourth on 4 vertices, offset = run seed) + for every connected graph on 2..4 vertices 2 (quick 1) graphs outside its orbit; "
+              "seeded: 16 (thorough 400) pairs on 5 and 8 (200) on 6 vertices. "
               "x every entry point x every construction of the arguments (int64 / float64 / int32 arrays, networkx graphs with weight attributes "
               "(from_numpy_array) / without edge attributes, Graph objects of both, stabilizer / Clifford tableaux, stabilizer tableau in another "
-              "generating set). Per case: call(x1,x2) twice with the SAME argument objects, then call(x2,x1); every answer judged by the oracle, returned "
+              "generating set). Per case: call(x1,x2) twice with the SAME argument objects, then call(x2,x1) (lc_check / converter_gate_list / state_converter_circuit: twice only); every answer judged by the oracle, returned "
               "sequences replayed on the object the caller still holds; after every call both arguments (and the solution given to "
-              "lc_graph_operations / local_clifford_ops) bit-for-bit unchanged",
+              "lc_graph_operations / local_clifford_ops) bit-for-bit unchanged; random mode with seeds 0 (default), 3, 1; Graph objects: the second Graph is then "
+              "complemented in place and asked again",
         clause=CL_ANSWER + "; " + CL_GATES + "; " + CL_SEQ + " - for every way the graphs are given, on repeated use of the same argument "
                "objects, and without modifying the arguments")
 def c_frames(inp):
@@ -613,16 +622,85 @@ def c_frames(inp):
     truth = L.same_orbit(A, B)
     x1, x2 = _mk(form, A), _mk(form, B)
     f1, f2 = _fp(x1), _fp(x2)
-    for k, (p, q, P, Q) in enumerate(((x1, x2, A, B), (x1, x2, A, B), (x2, x1, B, A)), 1):
+    calls = [(x1, x2, A, B), (x1, x2, A, B)]
+    if entry.split(".")[0] in ("is_lc_equivalent", "lc_graph_operations", "find_lc_operations", "Graph"):
+        calls.append((x2, x1, B, A))  # (the three slower front ends are called twice only)
+    for k, (p, q, P, Q) in enumerate(calls, 1):
         what = f"call #{k} ({'x1,x2' if k < 3 else 'x2,x1'}; arguments given as {form})"
-        r = _entry_call(entry, p, q, P, Q, truth)
+        r = _entry_call(entry, p, q, P, Q, truth, rseed=(0, 3, 1)[k - 1])
         g1, g2 = _fp(x1), _fp(x2)
         if g1 != f1 or g2 != f2:
             which = "first" if (g1 != f1) == (k < 3) else "second"
             return f"{what}: the {which} argument was modified by the call" + (f" (and: {r})" if r else "")
         if r:
             return f"{what}: {r}"
+    if entry == "Graph.lc_equivalent":  # query - edit - query: the second Graph is complemented IN PLACE (stays in its orbit), then asked again
+        n = len(A)
+        v = max(range(n), key=lambda u: (int(B[u].sum()), -u))
+        x2.local_complementation(v, copy=False)
+        B2 = R.local_complement(B, v)
+        if not np.array_equal(_nx_adj(x2.data, n), B2):
+            return None  # (Graph.local_complementation is judged by its own item)
+        r = _entry_call(entry, x1, x2, A, B2, truth)
+        if r:
+            return f"after complementing the second Graph in place at vertex {v}: {r}"
+        r = _entry_call(entry, x2, x1, B2, A, truth)
+        if r:
+            return f"after complementing the second Graph in place at vertex {v} (asked from the edited Graph): {r}"
     return None
+
+
+# ------------------------------------------------------------------ node insertion order of networkx arguments
+def _nx_ordered(A, order):
+    """the graph A on the vertices 0..n-1 with its nodes INSERTED in the given order (as nx.Graph(edge list) or relabel_nodes produce)"""
+    n = len(A)
+    g = nx.Graph()
+    g.add_nodes_from(int(x) for x in order)
+    g.add_edges_from((i, j) for i in range(n) for j in range(i + 1, n) if A[i, j])
+    return g
+
+
+CL_ORDER = " (a networkx graph on the vertices 0..n-1 does not depend on the order in which its nodes were added; vertices / qubits are named by label)"
+
+
+@S.item("local_comp_graph.node_order", site=f"{_LCE}:local_comp_graph",
+        bound="fixed list, seed-independent (regression inputs of the repaired node-order defect of local_comp_graph): ALL connected graphs on 3 and 4 vertices x every vertex x 2 node insertion orders ([1,0,2],[2,1,0] / [3,2,1,0],[1,2,3,0])",
+        exhaustive=True, clause=CL_LC + CL_ORDER)
+def c_local_comp_order(inp):
+    a, v, order = inp
+    A = _adj(a)
+    n = len(A)
+    g = _nx_ordered(A, order)
+    f0 = _fp(g)
+    h = lce.local_comp_graph(g, v)
+    if _fp(g) != f0:
+        return "the input graph was modified"
+    if not isinstance(h, nx.Graph) or sorted(h.nodes) != list(range(n)):
+        return f"result is not a graph on 0..{n - 1}: {h!r}"
+    H = _nx_adj(h, n)
+    want = R.local_complement(A, v)
+    if not np.array_equal(H, want):
+        return f"nodes inserted as {order}: got {H.tolist()}, toggling exactly the pairs of neighbours of vertex {v} gives {want.tolist()}"
+    back = _nx_adj(lce.local_comp_graph(h, v), n)
+    if not np.array_equal(back, A):
+        return f"not an involution: twice at {v} gives {back.tolist()}"
+    return None
+
+
+@S.item("lc_check.node_order", site=f"{_SLC}:lc_check, converter_gate_list, state_converter_circuit",
+        bound="fixed list, seed-independent, same in both tiers (touches known finding KF-C09-node-order): graph 1 = every connected graph on 3 vertices and the path, star, cycle, paw, diamond, K4 on 4 vertices; graph 2 in {graph 1, LC_0(graph 1), "
+              "LC_1(graph 1), one graph outside the orbit}; both given as networkx graphs x 3 combinations of node insertion orders (sorted/shuffled, shuffled/sorted, "
+              "shuffled/other shuffle) x {lc_check, converter_gate_list, state_converter_circuit}", exhaustive=True, clause=CL_ANSWER + "; " + CL_GATES + CL_ORDER)
+def c_lc_check_order(inp):
+    entry, a, b, o1, o2 = inp
+    A, B = _adj(a), _adj(b)
+    truth = L.same_orbit(A, B)
+    x1, x2 = _nx_ordered(A, o1), _nx_ordered(B, o2)
+    f1, f2 = _fp(x1), _fp(x2)
+    r = _entry_call(entry, x1, x2, A, B, truth)
+    if _fp(x1) != f1 or _fp(x2) != f2:
+        return "an argument graph was modified"
+    return f"nodes inserted as {o1} / {o2}: {r}" if r else None
 
 
 # ------------------------------------------------------------------ local complementation
@@ -799,9 +877,10 @@ def run(tier, seed):
         samp = [["random", a, b] for a, b in cross5] + [["deterministic", a, b] for a, b in p6] + [["random", a, b] for a, b in p6[:6000]]
         ysamp = [["deterministic", a, b] for a, b in p6[:20000] if _same((a, b))]
     else:
-        p5 = _sample_pairs(5, 3000, rng)
-        samp = [["deterministic", a, b] for a, b in p5] + [["random", a, b] for a, b in p5[:600]]
-        ysamp = [[m, a, b] for m in modes for a, b in p5 if _same((a, b))]
+        p5 = _sample_pairs(5, 2000, rng)
+        p67 = _sample_pairs(6, 400, rng) + _sample_pairs(7, 100, rng)  # >= 6 vertices: real rank and GF(2) rank of 0/1 matrices first differ
+        samp = [["deterministic", a, b] for a, b in p5 + p67] + [["random", a, b] for a, b in p5[:400] + p67]
+        ysamp = [[m, a, b] for m in modes for a, b in p5 + p67 if _same((a, b))]
     S.map("is_lc_equivalent.answer_sampled", samp, nontrivial=nt_pair)
     for name in yes_items:
         S.map(name, ysamp)
@@ -825,12 +904,49 @@ def run(tier, seed):
         for form, validate in (("graph", True), ("adjacency", True), ("stabilizer", True), ("clifford", True)):
             lc_inputs += [[form, validate, a, b] for a, b in orb5c]
     S.map("lc_check.pairs", lc_inputs, nontrivial=nt_pair)
-    p5s = _sample_pairs(5, 12000 if thorough else 600, rng, frac_orbit=0.0 if thorough else 0.5)
+    p5s = _sample_pairs(5, 12000 if thorough else 400, rng, frac_orbit=0.0 if thorough else 0.5)
+    if not thorough:
+        p5s += _sample_pairs(6, 100, rng) + _sample_pairs(7, 30, rng)
     S.map("lc_check.pairs_sampled", [[form, True, a, b] for form in ("graph", "adjacency", "stabilizer", "clifford") for a, b in p5s], nontrivial=nt_pair)
     S.map("lc_check.dressed_tableaux", _dressed_cases(5 if thorough else 4, 12000 if thorough else 1200, rng),
           nontrivial=lambda i: L.same_orbit(_adj(i[2]), _adj(i[4])) and (len(i[3]) + len(i[5]) > 0))
     S.map("converter_gate_list.gates", [[a, b] for a, b in pairs4], nontrivial=nt_pair)
     S.map("state_converter_circuit.circuit", [[v, a, b] for v in (False, True) for a, b in pairs4], nontrivial=nt_pair)
+
+    # ---- argument frames / repeated use / construction variants (graph 1 connected: cannot meet KF-C09-1) -------------
+    fr_orbit, fr_cross = [], []
+    for n in (2, 3, 4):
+        allg = R.all_graphs(n)
+        for A in L.connected_graphs(n):
+            orb = L.orbit_of(A)
+            fr_orbit += [(A.tolist(), L.unkey(k).tolist()) for k in sorted(orb)]
+            outs = [G for G in allg if L.key(G) not in orb]
+            if outs:
+                fr_cross += [(A.tolist(), outs[_idx(A) % len(outs)].tolist()), (A.tolist(), outs[(3 * _idx(A) + 1) % len(outs)].tolist())]
+    if not thorough:  # quick: all pairs on <= 3 vertices, every fourth same-orbit pair on 4 vertices (offset by the run seed), one cross pair per graph
+        fr_orbit = [p for p in fr_orbit if len(p[0]) <= 3] + [p for p in fr_orbit if len(p[0]) == 4][seed % 4::4]
+        fr_cross = fr_cross[seed % 2::2]
+    fr_pairs = fr_orbit + fr_cross + _sample_pairs(5, 400 if thorough else 16, rng) + _sample_pairs(6, 200 if thorough else 8, rng)
+    S.map("lc_entry_points.frames_and_reuse", [[e, f, a, b] for a, b in fr_pairs for e, fs in ENTRY_FORMS.items() for f in fs], nontrivial=nt_pair)
+
+    # ---- node insertion order of networkx arguments (fixed lists) ---------------------------------------------------
+    orders = {3: [[1, 0, 2], [2, 1, 0]], 4: [[3, 2, 1, 0], [1, 2, 3, 0]]}
+    S.map("local_comp_graph.node_order", [[A.tolist(), v, o] for n in (3, 4) for A in L.connected_graphs(n) for v in range(n) for o in orders[n]],
+          nontrivial=lambda i: int(np.sum(_adj(i[0])[i[1]])) >= 2)
+    n4 = [[[0, 1, 0, 0], [1, 0, 1, 0], [0, 1, 0, 1], [0, 0, 1, 0]], [[0, 1, 1, 1], [1, 0, 0, 0], [1, 0, 0, 0], [1, 0, 0, 0]],
+          [[0, 1, 0, 1], [1, 0, 1, 0], [0, 1, 0, 1], [1, 0, 1, 0]], [[0, 1, 1, 0], [1, 0, 1, 0], [1, 1, 0, 1], [0, 0, 1, 0]],
+          [[0, 1, 1, 1], [1, 0, 1, 0], [1, 1, 0, 1], [1, 0, 1, 0]], [[0, 1, 1, 1], [1, 0, 1, 1], [1, 1, 0, 1], [1, 1, 1, 0]]]
+    oc = []
+    for A in [G for G in L.connected_graphs(3)] + [np.array(a) for a in n4]:
+        n = len(A)
+        outs = [G for G in R.all_graphs(n) if not L.same_orbit(A, G)]
+        seconds = [A, R.local_complement(A, 0), R.local_complement(A, 1)] + outs[:1]
+        srt = list(range(n))
+        for B in seconds:
+            for o1, o2 in ((srt, orders[n][0]), (orders[n][1], srt), (orders[n][0], orders[n][1])):
+                for e in ("lc_check", "converter_gate_list", "state_converter_circuit"):
+                    oc.append([e, A.tolist(), np.array(B).tolist(), o1, o2])
+    S.map("lc_check.node_order", oc, nontrivial=lambda i: _same((i[1], i[2])))
 
     # ---- local complementation ------------------------------------------------------------------
     lc_in = [[A.tolist(), v] for n in range(1, 6) for A in R.all_graphs(n) for v in range(n)]
@@ -840,6 +956,8 @@ def run(tier, seed):
 
     S.note("oracle: refsem.core.lc_orbit BFS (exact for every n used); gates judged on refsem state vectors up to global phase")
     S.note("random mode is called with graphiq's default seed=0, so it is a deterministic function of the pair")
+    S.note("networkx arguments of every seeded domain are built with nx.from_numpy_array or with nodes inserted 0..n-1; other insertion orders only in the fixed "
+           "items local_comp_graph.node_order (repaired) and lc_check.node_order (known finding KF-C09-node-order)")
     S.note("fixed (run-seed independent) input lists: every item except is_lc_equivalent.answer_sampled, lc_check.pairs_sampled, "
-           "lc_check.dressed_tableaux and the n>=5 part of the three 'yes' items; those take graph 1 connected and cannot meet KF-C09-1")
+           "lc_check.dressed_tableaux, lc_entry_points.frames_and_reuse and the n>=5 part of the three 'yes' items; those take graph 1 connected and cannot meet KF-C09-1")
     return S
